@@ -1,7 +1,7 @@
 (** C01 — rejection ABC returns exactly the best simulated draws, row-consistent.
     Model: Sched/Reject.v (buffer of n+b rows, merge, stable lexsort, state meta, batch estimator).
     Proofs: Proofs/C01_Sorting.v, C01_Reject.v, C01_Estimator.v, C01_History.v. *)
-From Coq Require Import List ZArith NArith Arith Bool Sorting.Permutation Sorting.Sorted PrimFloat.
+From Coq Require Import List ZArith NArith Arith Bool Sorting.Permutation Sorting.Sorted PrimFloat Lia.
 From Elfi Require Import Sched.Sched Sched.Reject Proofs.C01_Sorting Proofs.C01_Reject Proofs.C01_Estimator Proofs.C01_History.
 Import ListNotations.
 
@@ -67,6 +67,39 @@ Theorem C01_estimator_safe_on_domain :
     (stops n b k acc = true -> n <= acc) /\ (n <= acc -> estimate_batches n b (k * b) acc 0 <= S k).
 Proof. exact estimator_safe. Qed.
 Print Assumptions C01_estimator_safe_on_domain.
+
+(** The same on an UNBOUNDED domain (every n_samples and every n_sim = k * batch_size up to 2^40, any
+    current objective): with k batches consumed and fewer than n_samples acceptable draws the
+    binary64 estimate asks for at least one more batch, so the run cannot stop early; once n_samples
+    are held it asks for at most one batch beyond the k consumed. Proved by a rounding-error analysis
+    of the five binary64 operations (Flocq), not by evaluation; the axioms listed are the standard
+    library's specifications of the primitive floats / integers and the classical real numbers. *)
+Theorem C01_estimator_safe_unbounded :
+  forall n b k acc objective,
+    1 <= n -> 1 <= b -> 1 <= k -> 1 <= acc <= n + b ->
+    (Z.of_nat n <= 2 ^ 40)%Z -> (Z.of_nat (k * b) <= 2 ^ 40)%Z ->
+    (acc < n -> k < estimate_batches n b (k * b) acc objective) /\
+    (n <= acc -> estimate_batches n b (k * b) acc objective <= S k).
+Proof. exact estimator_safe_unbounded. Qed.
+Print Assumptions C01_estimator_safe_unbounded.
+
+(** in the shape of the finite-domain statement *)
+Theorem C01_estimator_safe_unbounded_stops :
+  forall n b k acc,
+    1 <= n -> 1 <= b -> 1 <= k -> 1 <= acc <= n + b ->
+    (Z.of_nat n <= 2 ^ 40)%Z -> (Z.of_nat (k * b) <= 2 ^ 40)%Z ->
+    (stops n b k acc = true -> n <= acc) /\ (n <= acc -> estimate_batches n b (k * b) acc 0 <= S k).
+Proof. exact estimator_safe_unbounded_stops. Qed.
+
+(** Non-vacuity outside the old finite domain: n = 1000, batch_size = 100, 37 batches consumed, 12
+    acceptable draws — the theorem's bound 37 < estimate, against the evaluated estimate 3084. *)
+Example C01_estimator_unbounded_example :
+  estimate_batches 1000 100 (37 * 100) 12 0 = 3084
+  /\ 37 < estimate_batches 1000 100 (37 * 100) 12 0.
+Proof.
+  split; [vm_compute; reflexivity|].
+  destruct (C01_estimator_safe_unbounded 1000 100 37 12 0) as [H _]; [lia..|]. apply H. lia.
+Qed.
 
 (** The sort the buffer relies on: a sorted permutation (stable insertion sort by (distance, unfilled)). *)
 Theorem C01_sort_is_sorted_permutation :
